@@ -1,11 +1,12 @@
 #!/bin/bash
 # usage: try_patch.sh <patch.diff> [Cxx ...]   -- apply the patch to a scratch worktree of /repo HEAD, run the quick checks there, clean up.
 P=$(readlink -f $1); shift
+[ -f "$(dirname $P)/patch.rebased.diff" ] && P="$(dirname $P)/patch.rebased.diff"
 WT=$(mktemp -d /tmp/hbv-try.XXXXXX)
 git -C /repo worktree add -q --detach $WT HEAD || exit 2
 cd $WT
 if ! git apply $P 2>/dev/null; then
-  if ! git apply -3 $P 2>/dev/null; then echo "PATCH-DOES-NOT-APPLY"; git -C /repo worktree remove --force $WT; exit 3; fi
+  echo "PATCH-DOES-NOT-APPLY"; git -C /repo worktree remove --force $WT; exit 3
 fi
 PROPS="$@"
 if [ -z "$PROPS" ]; then PROPS=$(python3 -c "import json;print(' '.join(c['property_id'] for c in json.load(open('/verif/MANIFEST.json'))['checks']))"); fi
